@@ -750,6 +750,11 @@ def thresholds_for(rng, spec):
     s0, j0 = spec["s0"], spec["j0"]
     s = rng.choice([s0, s0, s0, s0 * 0.5, s0 * 0.25, s0 * 1.5, s0 * 2, round(s0 * rng.uniform(0.2, 2.5), 3)])
     j = rng.choice([j0, j0, j0, j0 * 0.5, j0 * 0.25, j0 * 1.5, j0 * 2, round(j0 * rng.uniform(0.2, 2.5), 3)])
+    # "all threshold pairs > 0": occasionally an extreme one (nothing is a storm / every wet step is)
+    if rng.random() < 0.06:
+        s = rng.choice([1e-6, 1e6, 0.01])
+    if rng.random() < 0.06:
+        j = rng.choice([1e-6, 1e6, 0.01])
     return s, j
 
 
